@@ -173,6 +173,8 @@ class Engine:
         self.reveal = False
         self.events_enabled = True
         self.local_imports = {}
+        self.branch_ids = set()
+        self.cur_outcome = None
 
     def _number(self, fn):
         # loops are numbered in SOURCE order (line, column), the ordinal used by the sidecar contracts
@@ -191,6 +193,8 @@ class Engine:
             self.script, self.pos, self.taken = script, 0, []
             self.trail = []
             self.path_tags = set()
+            self.branch_ids = set()
+            self.cur_outcome = None
             self.run_path()
             for j in range(len(script), len(self.taken)):
                 for alt in self.taken[j][1]:
@@ -224,6 +228,7 @@ class Engine:
             self.taken.append((k, feas[1:]))
         self.pos += 1
         st.pc.append(conds[k])
+        self.branch_ids.add(conds[k].get_id())  # a fact that stems from a control-flow choice (not an assumption): see the vacuity canaries
         self.trail.append(f"{getattr(getattr(self, 'cur_node', None), 'lineno', 0) - self.fn.lineno}:{k}")
         return k
 
@@ -254,7 +259,8 @@ class Engine:
             return
         n = self.site_ord.setdefault((kind, where), len([1 for k in self.site_ord if k[0] == kind]))
         oid = f"{self.c.prop}/{self.c.qual}/{kind}#{n}"
-        env = {"vars": dict(st.vars), "heap": st.heap.copy(), "nref": st.nref, "labels": dict(st.labels), "idx": list(st.idx), "trail": list(self.trail), "tags": sorted(self.path_tags)}
+        env = {"vars": dict(st.vars), "heap": st.heap.copy(), "nref": st.nref, "labels": dict(st.labels), "idx": list(st.idx), "trail": list(self.trail), "tags": sorted(self.path_tags),
+               "branch_ids": set(self.branch_ids), "outcome": getattr(self, "cur_outcome", None)}
         self.obligations.append(Obligation(oid, kind, list(st.pc), goal, list(st.idx), env, where))
 
     def prune(self):
@@ -423,6 +429,7 @@ class Engine:
 
     def finish(self, outcome):
         c, st = self.c, self.st
+        self.cur_outcome = "return" if outcome[0] == "return" else "raise:" + outcome[1].cls
         # in postconditions a parameter name denotes the ARGUMENT (entry value), even if the body re-assigned the local
         for nm, v in self.params.items():
             if not nm.startswith("$"):
@@ -733,12 +740,15 @@ class Engine:
         return r
 
     def list_repeat(self, val, n):
-        if val.ty == "none":
+        was_none = val.ty == "none"
+        if was_none:
             val = V("any", z3.IntVal(0))  # [None] * n: a list of untyped slots
         r = self.alloc_list(val.ty)
         s = sort_of(val.ty)
         self.st.heap.store(self.el_name(val.ty), z3.ArraySort(I, s), r.z, z3.K(I, val.z))
         self.st.heap.store("len", I, r.z, z3.If(n >= 0, n, 0))
+        if was_none:
+            r.py = "none-repeat"  # assigned to a local with a declared element type: the slots are None of that type (see assign)
         return r
 
     # ---- object / record fields
@@ -1287,6 +1297,12 @@ class Engine:
                 want = self.c.locals[tgt.id]
                 if isinstance(val.ty, tuple) and None in val.ty:
                     self.refine(val, strip_opt(want))
+                elif val.py == "none-repeat" and isinstance(strip_opt(want), tuple) and strip_opt(want)[0] == "list" and strip_opt(want)[1] != "any":
+                    # [None] * n declared as list[T]: n slots holding None of type T
+                    ety = strip_opt(want)[1]
+                    zero = z3.BoolVal(False) if sort_of(ety) == B else (z3.RealVal(0) if sort_of(ety) == R else z3.IntVal(0))
+                    st.heap.store(self.el_name(ety), z3.ArraySort(I, sort_of(ety)), val.z, z3.K(I, zero))
+                    val = V(strip_opt(want), val.z)
             st.vars[tgt.id] = val
         elif isinstance(tgt, (ast.Tuple, ast.List)):
             items = self.bi.unpack(self, val, len(tgt.elts))
@@ -1497,6 +1513,9 @@ class Engine:
         if "$yields" in st.vars and any(isinstance(x, (ast.Yield, ast.YieldFrom)) for b in n.body for x in ast.walk(b)):
             mods.append(st.vars["$yields"].z)
         nentry = st.nref
+        # modifies_fresh: the loop may change ANY object allocated by this call so far (e.g. all rows of a matrix built earlier), not only the
+        # listed ones; whatever is needed about those objects has to be in the invariant. Caller-visible (older) objects stay framed.
+        havoc_from = st.nref0 if spec.get("modifies_fresh") else nentry
         names = self.assigned_names(n.body + ([n.target] if is_for else []))
         for nm in names:
             if nm in st.vars:
@@ -1520,7 +1539,7 @@ class Engine:
         only = []
         for objexpr, flds in spec.get("only_fields", {}).items():
             only.append((self.ev_spec_value(objexpr).z, list(flds)))
-        st.heap.havoc(nentry, mods, st.nref, only)
+        st.heap.havoc(havoc_from, mods, st.nref, only)
         self.drain()
         self.trace_prefix_preserved(pre_heap)
         self.loop_only = only
@@ -1541,7 +1560,7 @@ class Engine:
             if n.orelse:
                 self.block(n.orelse)
             return
-        st.frames.append((k, nentry, mods, getattr(self, "loop_only", [])))
+        st.frames.append((k, havoc_from, mods, getattr(self, "loop_only", [])))
         st.idx.append(i)
         prefilter = is_for and getattr(self, "loop_prefilter", False)
         self.loop_prefilter = False
